@@ -5,7 +5,9 @@ import (
 	"fmt"
 	"hash/fnv"
 	"math"
+	"os"
 	"runtime"
+	"runtime/debug"
 	"sort"
 	"strings"
 	"testing"
@@ -416,11 +418,11 @@ func (w *World) passTime() {
 var curWorld *World
 
 // RunOnce executes the scenario once under the given choice prefix (default afterwards).
-func RunOnce(t *testing.T, scn *Scenario, prefix []string, keepTrace bool) *Result {
-	res := &Result{Scn: scn, Prefix: prefix}
+func RunOnce(t *testing.T, scn *Scenario, prefix []string, keepTrace bool) (res *Result) {
+	res = &Result{Scn: scn, Prefix: prefix}
 	defer func() {
 		if p := recover(); p != nil {
-			if s, ok := p.(string); ok && strings.Contains(s, "blocked goroutines remain") {
+			if s := fmt.Sprint(p); strings.Contains(s, "blocked goroutines remain") {
 				res.BubbleDeadlock = true
 				return
 			}
@@ -428,6 +430,16 @@ func RunOnce(t *testing.T, scn *Scenario, prefix []string, keepTrace bool) *Resu
 		}
 	}()
 	synctest.Test(t, func(t *testing.T) {
+		bubbleDone := false
+		defer func() {
+			if !bubbleDone {
+				if p := recover(); p != nil {
+					fmt.Fprintf(os.Stderr, "harness: bubble root panicked: %v\n%s\n", p, debug.Stack())
+					panic(p)
+				}
+				fmt.Fprintf(os.Stderr, "harness: bubble root left abnormally (Goexit?)\n%s\n", debug.Stack())
+			}
+		}()
 		w := &World{
 			scn: scn, epoch: time.Now(), store: NewStore(scn.TTL), insts: map[string]*Inst{},
 			opCount: map[string]int{}, nWatch: map[string]int{}, wake: make(chan struct{}, 1),
@@ -491,6 +503,7 @@ func RunOnce(t *testing.T, scn *Scenario, prefix []string, keepTrace bool) *Resu
 			res.Terms = append(res.Terms, w.insts[id].terms...)
 		}
 		res.Spin = w.spin
+		bubbleDone = true
 	})
 	return res
 }
